@@ -138,6 +138,11 @@ def obligations(tier, rng):
             for sched in schedules([n]):
                 out.append(ob('C05', 'chunk', 'F1/%s/n=%d/%s' % (text(f), n, _sname(sched)), f=f, ns=[n], sched=sched,
                               max_paths=20000, wall=900))
+    if not quick:
+        for f in un:
+            for sched in schedules([3]):
+                out.append(ob('C05', 'chunk', 'F1-free-start/%s/n=3/%s' % (text(f), _sname(sched)), f=f, ns=[3], sched=sched, start='free',
+                              max_paths=20000, wall=900))
     bi = [(k, X, Y) for k in BIN] + [(k, X, Y, a, b) for k in BINT for a, b in bq[:2]]
     for f in bi:
         heavy = f[0] in ('since', 'since_t')
